@@ -19,7 +19,7 @@ def stage2 (e1 : J) : J := filterAnnotations (keepAnnotation (annPrefixes e1)) e
 
 def tailBuild (ig extra : List (List String)) (src e1 : J) : Except Err J :=
   if !metaOK e1 then .error .unmodelled else
-  match cherrypick src (stage2 e1) extra with
+  match cherrypickSkip src (stage2 e1) extra with
   | .error e => .error e
   | .ok e3 => if !metaOK e3 then .error .unmodelled else ignoreFields (removeEmptyStanzas e3) ig
 
@@ -38,7 +38,7 @@ theorem baseBuild_eq (ig extra : List (List String)) (kvs : Kvs) :
     | false => simp [throw, throwThe, MonadExceptOf.throw, pure, Except.pure, Except.bind]
     | true =>
       simp only [Bool.not_true, Bool.false_eq_true, if_false, pure, Except.pure, Except.bind]
-      cases cherrypick (.obj kvs) _ extra with
+      cases cherrypickSkip (.obj kvs) _ extra with
       | error e => rfl
       | ok e3 =>
         simp only []
@@ -147,7 +147,7 @@ theorem baseBuild_withAnn_of_filter (ig extra : List (List String))
         tailBuild ig extra (.obj kvs) (annShape dk cm (.obj A))
       simp only [tailBuild, stage2, annPrefixes, metaOK_annShape, metaGet_annShape, filterAnnotations_annShape,
         hfilt]
-      rw [cherrypick_congr (.obj (withAnn kvs m A')) (.obj kvs) extra _
+      rw [cherrypickSkip_congr (.obj (withAnn kvs m A')) (.obj kvs) extra _
         (fun f hf => resolveE_withAnn_other hm f (hx f hf))]
 
 theorem baseBuild_withAnn (ig extra : List (List String))
